@@ -17,7 +17,7 @@ RULE = (
     "second-order input terms, all value types / selections / designations): scale (perturbation k multiplied by c_k, powers of "
     "two compared BITWISE for float inputs, complex c in non-Hermitian mode), merge (two parameters identified: out_n = sum over "
     "n1+n2=n), permute (parameter axes reordered), vanish (an identically zero extra perturbation added at a random position), "
-    "substitute (lambda -> lambda^p, p in {2,3}: out'_{pn} = out_n, zero elsewhere); each for H_tilde, U and U_inv at every order "
+    "substitute (lambda -> lambda^p, p in {2,3}: out'_{pn} = out_n, zero elsewhere), symbolic (the same merge / substitute relations stated on a sympy matrix polynomial with mixed-order terms, by substituting the symbols before the library Taylor-expands it); each for H_tilde, U and U_inv at every order "
     "up to the bound. Non-trivial: perturbation couples an eliminated pair and order bound >= 2; distinct = (relation, structural signature)"
 )
 ASSUMPTIONS = [
@@ -28,7 +28,7 @@ BUDGET = {"quick": dict(cases=500, seconds=75), "thorough": dict(cases=12000, se
 CASE_TIMEOUT = 150
 MONITORS = {"poison": True, "product": False, "solvers": False}
 MONITOR_VERDICTS = ("fp", "nonfinite", "write")
-RELATIONS = ["scale", "merge", "permute", "vanish", "substitute"]
+RELATIONS = ["scale", "merge", "permute", "vanish", "substitute", "symbolic"]
 
 
 def plan(tier, seed):
@@ -45,8 +45,17 @@ def plan(tier, seed):
             force["n_par"] = int(rng.choice([1, 2]))
         elif rel == "substitute":
             force["n_par"] = int(rng.choice([1, 1, 2]))
+        elif rel == "symbolic":
+            force = dict(n_par=int(rng.choice([2, 2, 3])), vtype="sympy", design="indices", container="dict", extra_orders=True, complex=False)
         spec = matprob.gen_spec(rng, tier, hermitian=bool(rng.random() < 0.6), **force)
         spec["max_total"] = min(spec["max_total"], 3)
+        if rel == "symbolic":
+            while sum(spec["sizes"]) > 5:
+                spec["sizes"][int(np.argmax(spec["sizes"]))] -= 1
+            spec["sizes"] = [x for x in spec["sizes"] if x > 0]
+            spec["symbolic"] = False
+            spec = matprob.normalise(spec)
+            spec["max_total"] = 2
         spec["rel"] = rel
         spec["rs"] = int(rng.integers(0, 2**31))
         specs.append(spec)
@@ -226,6 +235,85 @@ def run_case(spec):
                         continue
                     _close(p, B[k], A[n], f"substitute lambda->lambda^{power}: {name}_{k}", scale=mag)
                 compared += 1
+    elif rel == "symbolic":
+        # the same relations stated at the user level: a sympy matrix polynomial in the symbols, with the symbols
+        # identified (x, y -> t) or substituted (x -> x**2) symbolically before the library Taylor-expands it
+        import sympy
+        from pymablock import block_diagonalize
+
+        syms = [sympy.Symbol(f"x{k}", real=True) for k in range(p.n_par)]
+        poly = sympy.zeros(p.N, p.N)
+        for n, M in p.hamiltonian.items():
+            mono = sympy.Integer(1)
+            for sy, k in zip(syms, n):
+                mono = mono * sy**k
+            poly = poly + mono * M
+        if set(syms) - poly.free_symbols:
+            return dict(verdict="held", sig=["symbolic-skip"], nontrivial=False, counters={"symbolic_skipped_vanishing_term": 1}, sample=None)
+        a, b = sorted(int(x) for x in rng.choice(p.n_par, size=2, replace=False))
+        which = str(rng.choice(["merge", "substitute"]))
+        kw = dict(p.kwargs)
+
+        def run_poly(P, symbols, orders):
+            try:
+                outs = block_diagonalize(P, symbols=symbols, **kw)
+            except Exception as e:  # noqa: BLE001
+                raise Violation(f"block_diagonalize on the sympy matrix raised {type(e).__name__}: {e}")
+            res = []
+            one_subs = {sy: 1 for sy in symbols}
+            for sidx in range(3):
+                class V:  # substitute the perturbation symbols by 1 (coefficient x monomial by design)
+                    def __init__(self, ser):
+                        self.ser = ser
+                    def __getitem__(self, item):
+                        v = self.ser[item]
+                        return v.subs(one_subs) if hasattr(v, "subs") else v
+                res.append({n: matprob.assemble(V(outs[sidx]), n, p, True) for n in orders})
+            return res
+
+        full = run_poly(poly, syms, p.orders)
+        # the matrix route must agree with the dict route first
+        for name, A, B in zip(names, base, full):
+            for n in p.orders:
+                _close(p, B[n], A[n], f"sympy-matrix input vs dict input: {name}_{n}")
+                compared += 1
+        if which == "merge":
+            t = sympy.Symbol("t", real=True)
+            rest = [sy for k, sy in enumerate(syms) if k not in (a, b)]
+            new_syms = [t if k == a else sy for k, sy in enumerate(syms) if k != b]
+            Pm = poly.subs({syms[a]: t, syms[b]: t})
+            q_orders = [o for o in itertools.product(range(3), repeat=p.n_par - 1) if sum(o) <= 2]
+            got = run_poly(Pm, new_syms, q_orders)
+
+            def merged(n):
+                m = list(n)
+                m[a] += m[b]
+                del m[b]
+                return tuple(m)
+
+            for name, A, B in zip(names, full, got):
+                for k in q_orders:
+                    tot = _zero(p)
+                    for n in p.orders:
+                        if merged(n) == k:
+                            tot = tot + A[n]
+                    _close(p, B[k], tot, f"symbolic merge x{a}, x{b} -> t: {name}_{k}")
+                    compared += 1
+            counters["symbolic_merge"] += 1
+        else:
+            Ps = poly.subs({syms[a]: syms[a] ** 2})
+            q_orders = [k for k in itertools.product(range(5), repeat=p.n_par) if (k[a] // 2 + (k[a] % 2) + sum(v for i, v in enumerate(k) if i != a)) <= 2 and k[a] <= 4]
+            got = run_poly(Ps, syms, q_orders)
+            for name, A, B in zip(names, full, got):
+                for k in q_orders:
+                    if k[a] % 2:
+                        _close(p, B[k], _zero(p), f"symbolic x{a} -> x{a}**2: {name}_{k} must vanish")
+                    else:
+                        n = tuple(v // 2 if i == a else v for i, v in enumerate(k))
+                        if n in A:
+                            _close(p, B[k], A[n], f"symbolic x{a} -> x{a}**2: {name}_{k}")
+                    compared += 1
+            counters["symbolic_substitute"] += 1
     counters["elements_compared"] += compared
     nontrivial = oracles.perturbation_couples_eliminated(p) and spec["max_total"] >= 2
     return dict(verdict="held", sig=[rel] + matprob.signature(spec), nontrivial=nontrivial, counters=dict(counters), sample=dict(relation=rel, **matprob.sample_of(p)))
